@@ -354,7 +354,7 @@ def emit_spec(model: J) -> str:
     return x + "</PROT-STACKS></COMPARAM-SPEC></ODX>"
 
 
-def emit_ref(ref: J, omitted_as_empty: bool = False) -> str:
+def emit_ref(ref: J, omitted_as_empty: bool = False, stack: Optional[str] = None) -> str:
     x = (f'<COMPARAM-REF ID-REF={quoteattr(ref["id"])} DOCREF={quoteattr(ref["subset"])} '
          'DOCTYPE="COMPARAM-SUBSET">')
     v = ref["value"]
@@ -370,17 +370,23 @@ def emit_ref(ref: J, omitted_as_empty: bool = False) -> str:
             for s in v) + "</COMPLEX-VALUE>"
     if ref["proto"] is not None:
         x += f'<PROTOCOL-SNREF SHORT-NAME={quoteattr(ref["proto"])}/>'
+        if stack is not None:
+            # naming the protocol stack as well does not change which protocol the value is for
+            x += f'<PROT-STACK-SNREF SHORT-NAME={quoteattr(stack)}/>'
     return x + "</COMPARAM-REF>"
 
 
 def emit_layers(model: J, omitted_as_empty: bool = False) -> str:
     kinds = {l["name"]: l["kind"] for l in model["layers"]}
     out = []
+    stack_of = {l["name"]: l.get("stack") for l in model["layers"] if l["kind"] == "PROTOCOL"}
     for l in model["layers"]:
         tail = ""
         if l.get("refs"):
-            tail += "<COMPARAM-REFS>" + "".join(emit_ref(x, omitted_as_empty)
-                                                for x in l["refs"]) + "</COMPARAM-REFS>"
+            tail += "<COMPARAM-REFS>" + "".join(
+                emit_ref(x, omitted_as_empty,
+                         stack_of.get(x["proto"]) if (n + len(l["name"])) % 2 else None)
+                for n, x in enumerate(l["refs"])) + "</COMPARAM-REFS>"
         if l["kind"] == "PROTOCOL":
             tail += (f'<COMPARAM-SPEC-REF ID-REF="{SPEC_NAME}" DOCREF="{SPEC_NAME}" '
                      'DOCTYPE="COMPARAM-SPEC"/>')
